@@ -27,7 +27,7 @@ def run(ctx):
     r5(ctx)
 
 
-def headers_loop(ctx):
+def headers_loop(ctx, which=0):
     """(function, `for name, value in <headers>` node) of the Response method that validates and stores the application's
     headers -- process_headers, or start_response when that helper is written (or was expanded) in place"""
     repo = ctx.repo
@@ -50,13 +50,22 @@ def headers_loop(ctx):
     if any(ff is not f for ff, _ in found):
         raise AnalysisError("C09: Response.headers is appended to in several methods: %s" % sorted(set(ff.short for ff, _ in found)))
     ctx.fn(f)
-    return f, [n for n in f.cfg.nodes_of(lp) if n.kind == "for"][0]
+    # the loop may occur more than once (the helper that holds it expanded on two branches): every occurrence is judged
+    lps = []
+    for _, l_ in found:
+        if not any(l_ is x for x in lps):
+            lps.append(l_)
+    nodes = [[n for n in f.cfg.nodes_of(l_) if n.kind == "for"][0] for l_ in lps]
+    if which is None:
+        return f, nodes
+    return f, nodes[which]
 
 
-def header_appends(ctx):
+def header_appends(ctx, lnode=None):
     """CFG nodes of the `(name, value)` appends inside the validating header loop (to self.headers or to the local
     list that is stored into it)"""
-    f, lnode = headers_loop(ctx)
+    f, lnode0 = headers_loop(ctx)
+    lnode = lnode or lnode0
     accs = set()
     for x in walk_own(f.node):
         if isinstance(x, ast.Assign) and any(rname(f, t) == "self.headers" for t in x.targets if isinstance(t, ast.Attribute)) and local_accumulator(f, x.value) is not None:
@@ -82,14 +91,25 @@ def emitted_head(repo, fields):
         if isinstance(e, ast.Call) and (e.func.attr if isinstance(e.func, ast.Attribute) else getattr(e.func, "id", "")) == "http_date":
             return "DATE"
         return None
-    env = {"self.headers_sent": False, "self.status": "200 OK", "self.req.version": (1, 1), "self.version": "gunicorn/0", "self.chunked": False,
-           "DATE": "<date>", "self.must_close": True, "self.upgrade": False, "self.headers": ()}
+    # every instance attribute starts from what __init__ gives it (a memo attribute a change introduced starts empty)
+    env = {}
+    cls = repo.cls(RESP)
+    attrs = sorted(set("self." + t.attr for fm in cls.methods.values() for x in walk_own(fm.node) if isinstance(x, (ast.Assign, ast.AugAssign))
+                       for t in (x.targets if isinstance(x, ast.Assign) else [x.target]) if isinstance(t, ast.Attribute) and isinstance(t.value, ast.Name) and t.value.id == "self"))
+    f_init = repo.func(RESP + ".__init__")
+    p_ = f_init.params
+    for o in Explorer(f_init, tracked=attrs).run(f_init.cfg.entry, {p_[1]: UNKNOWN, p_[2]: UNKNOWN, p_[3]: UNKNOWN}):
+        if o.kind == "return":
+            env.update(dict((k, v) for k, v in o.env.items() if k.startswith("self.") and v is not UNKNOWN))
+            break
+    env.update({"self.headers_sent": False, "self.status": "200 OK", "self.req.version": (1, 1), "self.version": "gunicorn/0", "self.chunked": False,
+                "DATE": "<date>", "self.must_close": True, "self.upgrade": False, "self.headers": ()})
     env.update(fields)
     node, call = writes[0]
 
     def probe(ex_, env_):
         return ex_.ev(call.args[1], env_)
-    ex = Explorer(f, atom_of=atom_of, inline_depth=3)
+    ex = Explorer(f, atom_of=atom_of, inline_depth=3, tracked=attrs)
     outs = ex.run(g.entry, env, probes={node.id: ("head", probe)})
     vals = set(v for o in outs for (k, v) in o.events if isinstance((k, v), tuple) and k == "head")
     if len(vals) != 1:
@@ -250,35 +270,36 @@ def r2(ctx):
     ctx.check("C09.R2", cs == spec.FIELD_VALUE_CHARS and hi is None, "HEADER_VALUE_RE", "gunicorn/http/wsgi.py: HEADER_VALUE_RE",
               "HEADER_VALUE_RE accepts %s; RFC 9110 5.5 field-content is %s (extra: %s)" % (regexset.show(cs), regexset.show(spec.FIELD_VALUE_CHARS), regexset.show(cs - spec.FIELD_VALUE_CHARS)),
               "== HTAB SP VCHAR obs-text")
-    f, lnode = headers_loop(ctx)
+    f, lnodes = headers_loop(ctx, which=None)
     g = f.cfg
-    loop = [lnode]
-    NAME, VALUE = [x.id for x in loop[0].ast.target.elts]
-    # regex tests are dominated by the str type check of the same variable
-    for t in g.tests():
-        rt = regex_test(repo, f, t.ast)
-        if not rt or not any(a is lnode.ast for a in f.module.ancestors(t.ast)):
-            continue
-        var = tail(rt[3])
+    for lnode in lnodes:
+        loop = [lnode]
+        NAME, VALUE = [x.id for x in loop[0].ast.target.elts]
+        # regex tests are dominated by the str type check of the same variable
+        for t in g.tests():
+            rt = regex_test(repo, f, t.ast)
+            if not rt or not any(a is lnode.ast for a in f.module.ancestors(t.ast)):
+                continue
+            var = tail(rt[3])
 
-        def isstr(e, var=var):
-            if isinstance(e, ast.Call) and isinstance(e.func, ast.Name) and e.func.id == "isinstance" and tail(e.args[0]) == var and norm(e.args[1]) == "str":
-                return -1
-            return None
-        p, hits = guard_check(f, [t], isstr, kills=loop)
-        ctx.check("C09.R2", p is None, key(f, "type-check-first|" + var), site(f, t), "`%s` is matched against a str pattern before its type was checked (bytes would raise TypeError -> 500 after partial processing)" % var,
-                  "isinstance(%s, str) first" % var, path=p and g.fmt_path(p))
-        ctx.check("C09.R2", rt[2] == "fullmatch", key(f, "fullmatch|" + var), site(f, t), "`%s`: header validators must use fullmatch" % norm(t.ast), "fullmatch")
-    # name uses the token class
-    apps = header_appends(ctx)
-    ctx.need(apps, "C09.R2: process_headers never appends")
-    p, hits = guard_check(f, apps, token_recog(repo, f, NAME), kills=[k for k in kills_of(f, NAME) if k.kind != "for"] + loop)
-    ctx.check("C09.R2", p is None, key(f, "name-token"), site(f), "a header name that is not an RFC 9110 token can be emitted", "names validated as tokens", path=p and g.fmt_path(p))
+            def isstr(e, var=var):
+                if isinstance(e, ast.Call) and isinstance(e.func, ast.Name) and e.func.id == "isinstance" and tail(e.args[0]) == var and norm(e.args[1]) == "str":
+                    return -1
+                return None
+            p, hits = guard_check(f, [t], isstr, kills=loop)
+            ctx.check("C09.R2", p is None, key(f, "type-check-first|" + var), site(f, t), "`%s` is matched against a str pattern before its type was checked (bytes would raise TypeError -> 500 after partial processing)" % var,
+                      "isinstance(%s, str) first" % var, path=p and g.fmt_path(p))
+            ctx.check("C09.R2", rt[2] == "fullmatch", key(f, "fullmatch|" + var), site(f, t), "`%s`: header validators must use fullmatch" % norm(t.ast), "fullmatch")
+        # name uses the token class
+        apps = header_appends(ctx, lnode)
+        ctx.need(apps, "C09.R2: process_headers never appends")
+        p, hits = guard_check(f, apps, token_recog(repo, f, NAME), kills=[k for k in kills_of(f, NAME) if k.kind != "for"] + loop)
+        ctx.check("C09.R2", p is None, key(f, "name-token"), site(f), "a header name that is not an RFC 9110 token can be emitted", "names validated as tokens", path=p and g.fmt_path(p))
 
 
 def r3(ctx):
     repo = ctx.repo
-    hf, hloop = headers_loop(ctx)
+    hf, hloops = headers_loop(ctx, which=None)
     n = 0
     for f in repo.funcs():
         for c in walk_own(f.node):
@@ -287,10 +308,10 @@ def r3(ctx):
                 if f.cls is not None and f.cls.qualname != RESP and tail(c.func.value.value) == "self":
                     continue
                 n += 1
-                ctx.check("C09.R3", f is hf and any(a is hloop.ast for a in f.module.ancestors(c)), key(f, "headers-writer"), site(f, c), "Response.headers is extended outside the validating header loop (validation bypassed)", "only the validating loop appends")
+                ctx.check("C09.R3", f is hf and any(a is hl.ast for hl in hloops for a in f.module.ancestors(c)), key(f, "headers-writer"), site(f, c), "Response.headers is extended outside the validating header loop (validation bypassed)", "only the validating loop appends")
     # a whole-list store `self.headers = <local accumulator>` counts as the loop's appends; any other store of a
     # non-empty value does not
-    happs = header_appends(ctx)
+    happs = [a_ for hl in hloops for a_ in header_appends(ctx, hl)]
     for f in repo.funcs():
         for x in walk_own(f.node):
             if isinstance(x, ast.Assign) and any(isinstance(t, ast.Attribute) and t.attr == "headers" and tail(t.value) in ("self", "resp", "response") for t in x.targets) \
@@ -304,7 +325,7 @@ def r3(ctx):
     ctx.floor("C09.R3", "Response.headers append sites", n + len(happs), 1)
     f = ctx.fn(repo.func(RESP + ".start_response"))
     g = f.cfg
-    ph = [n2 for c in calls_to(repo, f, hf.qualname) for n2 in nodes_with(f, c)] if hf is not f else [hloop]
+    ph = [n2 for c in calls_to(repo, f, hf.qualname) for n2 in nodes_with(f, c)] if hf is not f else list(hloops)
     ctx.check("C09.R3", bool(ph), key(f, "calls-process_headers"), site(f), "start_response does not validate the headers", "process_headers(headers)")
     bad = [c for c, q in repo.calls_in(f) if q in (RESP + ".send_headers", RESP + ".write", "gunicorn.util.write")]
     ctx.check("C09.R3", not bad, key(f, "no-send-in-start_response"), site(f), "start_response sends bytes: a later refusal could not be clean", "nothing is sent in start_response")
